@@ -179,6 +179,9 @@ class Env:
         self.fired[do] += 1
         self.log("env", (do, site))
         if do == "raise":
+            if ev.get("args") == "nonstr":
+                # an exception whose first argument is no string (e.g. a wrapped error)
+                raise exc_class(ev["exc"])(17, "injected at %s" % site)
             raise exc_class(ev["exc"])("injected at %s" % site)
         if do == "gc":
             gc.collect()
